@@ -10,7 +10,7 @@ namespace TrRouting {
 
   std::vector<std::reference_wrapper<const Connection>>::const_iterator ConnectionSet::getForwardConnectionsBeginAtDepartureHour(int hour) const
   {
-    if (hour > CONNECTION_ITERATOR_CACHE_END_HOUR || hour  < CONNECTION_ITERATOR_CACHE_BEGIN_HOUR) {
+    if (hour >= CONNECTION_ITERATOR_CACHE_END_HOUR || hour  < CONNECTION_ITERATOR_CACHE_BEGIN_HOUR) {
       return forwardConnections.cend();
     }
 
